@@ -313,12 +313,12 @@ CONTRACTS = [
              ["C02", "C07", "C08", "C10"], _value_cases, models=MODELS, trusted=TR,
              note="C10: every parameter is built from the element's *current* attribute (setting, power, ...), so the model a continued run "
                   "builds equals the one the uninterrupted run holds; initial_* values are distinct symbols in these contracts"),
-    Contract("wntr.sim.models.param:pnom_param.build", ["C07"],
+    Contract("wntr.sim.models.param:pnom_param.build", ["C07", "C10"],
              [_pnom_case(pn, ex) for pn in (False, True) for ex in (False, True)], models=MODELS, trusted=TR),
-    Contract("wntr.sim.models.param:pdd_poly_coeffs_param.build", ["C07"],
+    Contract("wntr.sim.models.param:pdd_poly_coeffs_param.build", ["C07", "C10"],
              [_pdd_poly_case(pn, em, ex) for pn in (False, True) for em in ("half", "global", "node") for ex in (False, True)],
              models=models_with_spline, trusted=TR),
-    Contract("wntr.sim.models.param:leak_poly_coeffs_param.build", ["C08"],
+    Contract("wntr.sim.models.param:leak_poly_coeffs_param.build", ["C08", "C10"],
              [_leak_poly_case(c, ex) for c in (Junction, Tank) for ex in (False, True)], models=models_with_spline, trusted=TR),
 ]
 
